@@ -1147,6 +1147,23 @@ def rewiring_order(rep: Report, ctx: Ctx, rule: str) -> None:
                    detail="the handlers read the loop's edges; removing "
                           "nodes first drops the edges without their mirror "
                           "sets")
+    # both break handlers run before what the root no longer reaches is
+    # pruned: a break event that is only reachable through the loop is
+    # re-attached behind the loop node by them - pruned first, its
+    # continuation is lost from the nesting (networkx returns no out-edges
+    # for a node that is gone)
+    prune = [e for e in effs if e.kind == "call"
+             and e.name == "remove_nodes_without_path_back_to_loop"]
+    for hn in ("update_graph_for_loop_end_events",
+               "update_graph_for_break_events_with_path_to_root_event"):
+        hs = [e for e in effs if e.kind == "call" and e.name == hn]
+        ok = len(prune) == 1 and bool(hs) and all(
+            before(ctx, fi, h.node, prune[0].node) for h in hs)
+        rep.ob(rule, f"every {hn} call happens before the unreachable "
+               "remainder is pruned", ok, fi=fi,
+               node=prune[0].node if prune else fi.node,
+               detail=f"{len(hs)} handler call(s), {len(prune)} pruning "
+                      "call(s)")
     # root: the in-degree-0 node, taken before any rewiring
     roots = [b for b in ctx.defs(fi).bindings.values() for b in b
              if b.kind == "assign" and b.value is not None and any(
